@@ -242,9 +242,11 @@ func injCatalogue(seed int64, nSoup int) []injection {
 	for _, f := range []struct{ id, must string }{{"grouped_decl", "either"}, {"embedded_interface", "either"}, {"empty_interface", "either"},
 		{"no_converter_interface", "reject"}, {"alias_interface", "either"}, {"interface_with_type_set", "either"}, {"only_comments", "reject"},
 		// unusual but well-formed files: nothing to complain about, nothing may be dropped
-		{"two_recv_same_var", "accept"}, {"line_directive", "accept"}} {
+		{"two_recv_same_var", "accept"}, {"line_directive", "accept"},
+		// a setup file that imports "C": the go command hands the loader a translated file in its place
+		{"cgo_import", "either"}} {
 		c = append(c, injection{ID: "file_" + f.id, Stage: "find", Must: f.must, Pos: "none", Slot: "file", File: f.id,
-			Solo: f.id == "empty_interface" || f.id == "only_comments"})
+			Solo: f.id == "empty_interface" || f.id == "only_comments", NoVet: f.id == "cgo_import"})
 	}
 	// command lines that point the output at a source file
 	c = append(c, injection{ID: "cli_out_is_setup", Stage: "load", Must: "reject", Pos: "none", Slot: "cli", Solo: true, Args: []string{"-out", "setup.go", "setup.go"}})
@@ -340,6 +342,10 @@ func c14Render(injs []injection) (files map[string]string, noteLine, methodLine 
 	var sb strings.Builder
 	sb.WriteString("//go:build convergen\n\npackage p\n\n")
 	line := 5
+	if file == "cgo_import" {
+		sb.WriteString("import \"C\"\n\n")
+		line += 2
+	}
 	w := func(s string) {
 		sb.WriteString(s)
 		line += strings.Count(s, "\n")
@@ -366,7 +372,7 @@ func c14Render(injs []injection) (files map[string]string, noteLine, methodLine 
 		}
 	}
 	switch file {
-	case "":
+	case "", "cgo_import":
 		w("type Convergen interface {\n")
 		body()
 		w("}\n")
@@ -510,7 +516,13 @@ func C14(c *core.Ctx) {
 				args = in.Args
 			}
 		}
-		runs[i].res = tool.Run(core.RunOpts{Dir: filepath.Join(root, runs[i].dir), Args: args, Timeout: 10 * time.Second})
+		limit := 10 * time.Second
+		for _, inj := range runs[i].injs {
+			if inj.File == "cgo_import" {
+				limit = 60 * time.Second // the go command runs cgo and the C compiler first
+			}
+		}
+		runs[i].res = tool.Run(core.RunOpts{Dir: filepath.Join(root, runs[i].dir), Args: args, Timeout: limit})
 	})
 	var mu sync.Mutex
 	kinds := map[string]bool{}
@@ -541,7 +553,7 @@ func C14(c *core.Ctx) {
 		}
 		switch {
 		case res.TimedOut:
-			problems = append(problems, "the tool did not terminate within 10 s")
+			problems = append(problems, "the tool did not terminate within its time limit (10 s; 60 s with cgo)")
 		case res.Crashed():
 			problems = append(problems, "the tool crashed: "+firstLine(res.Stderr))
 		case res.Exit == 0:
